@@ -43,6 +43,11 @@ pub struct GenParams {
     pub wild_names: bool,
     /// all samples share one short contig (many ids in one group: crosses 50-entry packs)
     pub shared_small: bool,
+    /// 0 = zero-padded ascending sample names (S000#0, smp000); 1 = unpadded numbers in shuffled
+    /// order, so that one sample's name is a strict textual prefix of another's (HG#1 / HG#10)
+    /// and the archive order differs from the lexicographic order
+    #[serde(default)]
+    pub name_style: u8,
 }
 
 impl GenParams {
@@ -61,8 +66,11 @@ impl GenParams {
         } else {
             *c.pick(&[40u32, 300, 1200, 1200, 3000, 6000])
         };
+        let seed = w.next();
+        // drawn from its own stream so that adding this dimension did not shift the others
+        let name_style = if Rng::new(seed ^ 0x4E41_4D45).pct(30) { 1 } else { 0 };
         GenParams {
-            seed: w.next(),
+            seed,
             n_samples,
             ref_contigs: if big { c.range(1, 3) as u32 } else { c.range(1, 8) as u32 },
             max_len,
@@ -80,6 +88,7 @@ impl GenParams {
             pansn: c.pct(50),
             wild_names: c.pct(50),
             shared_small: c.pct(15),
+            name_style,
         }
     }
 }
@@ -192,8 +201,27 @@ pub fn generate(p: &GenParams) -> Workload {
     let small_len = r.range(30, 90) as usize;
     let small_shared: Vec<u8> = random_seq(&mut r, small_len);
     let mut samples = Vec::new();
+    // name_style 1: unpadded numbers 1..n in a seeded shuffle (own stream: the sequences stay the
+    // same as with style 0)
+    let mut numbers: Vec<usize> = (1..=p.n_samples as usize).collect();
+    if p.name_style == 1 {
+        // pool {i, 10*i}: prefix-related pairs (1/10, 2/20, 12/120) are likely even for 2 samples
+        numbers.extend((1..=p.n_samples as usize).map(|i| i * 10));
+        numbers.sort();
+        numbers.dedup();
+        let mut nr = Rng::new(p.seed ^ 0x5348_5546);
+        for i in (1..numbers.len()).rev() {
+            let j = nr.below(i as u64 + 1) as usize;
+            numbers.swap(i, j);
+        }
+    }
     for s in 0..p.n_samples as usize {
-        let sname = if p.pansn { format!("S{s:03}#{}", s % 3) } else { format!("smp{s:03}") };
+        let sname = match (p.name_style, p.pansn) {
+            (1, true) => format!("HG#{}", numbers[s]),
+            (1, false) => format!("smp{}", numbers[s]),
+            (_, true) => format!("S{s:03}#{}", s % 3),
+            (_, false) => format!("smp{s:03}"),
+        };
         let mut contigs: Vec<(String, Vec<u8>)> = Vec::new();
         if s == 0 {
             contigs = reference.clone();
